@@ -87,13 +87,37 @@ def _setup():
 
     inj.set(strax, "deterministic_hash", dh)
     inj.inject(strax.utils, deterministic_hash=dh)
+    import strax.storage.common as sc
+
+    if "json" in sc.__dict__:
+        inj.inject(sc, json=_LineageJson())  # StorageFrontend._matches normalises lineages through json
     return inj
+
+
+class _LineageJson:
+    """json stand-in for lineages holding proxies: dumps/loads do to the CONTAINERS and KEYS what json does (tuples ->
+    lists, dictionary keys -> strings), leaves (possibly symbolic) pass through"""
+
+    @staticmethod
+    def dumps(x, **kw):
+        return ("__lineage__", x)
+
+    @staticmethod
+    def loads(p, **kw):
+        def conv(x):
+            if isinstance(x, dict):
+                return {(k if isinstance(k, str) else repr(k) if core.is_sym(k) else str(k).lower() if isinstance(k, bool)
+                         else str(k)): conv(v) for k, v in x.items()}
+            if isinstance(x, (tuple, list)):
+                return [conv(v) for v in x]
+            return x
+        return conv(p[1])
 
 
 def _jsonish(x):
     """what json.loads(json.dumps(x)) does to the containers of a lineage (leaves, possibly symbolic, untouched)"""
     if isinstance(x, dict):
-        return {k: _jsonish(v) for k, v in x.items()}
+        return {(k if isinstance(k, str) else str(k)): _jsonish(v) for k, v in x.items()}
     if isinstance(x, (tuple, list)):
         return [_jsonish(v) for v in x]
     return x
@@ -365,7 +389,7 @@ def nat_history(params, model):
     return {"ok": not bad, "detail": "; ".join(bad) or "agrees with a fresh context", "label": "history:"}
 
 
-def sym_fuzzy(kind, obj=True, tuple_option=False):
+def sym_fuzzy(kind, obj=True, tuple_option=False, dict_option=False):
     """Fuzzy matching: stored data accepted iff lineages are equal after deleting the fuzzy types / options; nothing is
     saved under fuzzy matching."""
     import strax
@@ -373,7 +397,7 @@ def sym_fuzzy(kind, obj=True, tuple_option=False):
     _BNAME[0] = "b"
     _MIX[0] = None
     # tuple_option: an ancestor has a tracked option with a tuple value, identical on both sides (never fuzzy)
-    _TUP[0] = (fresh_int("tu0"), 3) if tuple_option else None
+    _TUP[0] = (fresh_int("tu0"), 3) if tuple_option else ({0: fresh_int("tu0"), 1: 2} if dict_option else None)
     da = fresh_int("da"); db = fresh_int("db"); vm = fresh_int("v_m1")
     da2 = fresh_int("da2"); db2 = fresh_int("db2"); vm2 = fresh_int("v_m12")
     fe = tok_frontend()
@@ -571,6 +595,66 @@ def nat_hashseed(params, model):
     return {"ok": bad is None, "detail": bad or "same key in every process", "label": bad}
 
 
+# ---------------------------------------------------------------------------- automatic plugin version (__version__ = None)
+def _auto_plugin():
+    import strax
+
+    class AutoVersioned(strax.Plugin):
+        """a plugin that asks for the automatic version: a hash of its own attributes"""
+        __version__ = None
+        provides = ("autov",); depends_on = (); data_kind = "kav"
+        dtype = [(("t", "time"), np.int64), (("e", "endtime"), np.int64)]
+        scale = 3
+
+        def compute(self, chunk_i):
+            return None
+
+    return AutoVersioned
+
+
+def _auto_version_here():
+    return _auto_plugin().version()
+
+
+_AUTO = {}
+
+
+def _auto_version_in_fresh_interpreter(tag):
+    import os
+    import subprocess
+    import sys
+
+    if tag not in _AUTO:
+        env = dict(os.environ, PYTHONHASHSEED="0", NUMBA_DISABLE_JIT="1", VERIF_TAG=str(tag))
+        out = subprocess.run([sys.executable, "-W", "ignore", "-c",
+                              "import os\nx = [bytearray(64) for _ in range(int(os.environ['VERIF_TAG']) * 1000)]\n"
+                              "import harness.C02 as m; print('AUTOV' + m._auto_version_here())"],
+                             capture_output=True, text=True, env=env, timeout=300,
+                             cwd=os.path.dirname(os.path.dirname(os.path.abspath(__file__))))
+        line = [l for l in out.stdout.splitlines() if l.startswith("AUTOV")]
+        if not line:
+            raise RuntimeError(f"auto version subprocess failed: {out.stderr[-400:]}")
+        _AUTO[tag] = line[0][5:]
+    return _AUTO[tag]
+
+
+def sym_autoversion():
+    """The automatic version (and with it the storage key) of identical plugin code is the same in every process (same
+    PYTHONHASHSEED even; the interpreters only differ in what they allocated before importing strax)."""
+    a = core.concretize(fresh_int("p1", 0, 2))
+    b = core.concretize(fresh_int("p2", 0, 2))
+    assume(a < b)
+    va, vb = _auto_version_in_fresh_interpreter(a), _auto_version_in_fresh_interpreter(b)
+    prove(va == vb, f"autoversion:automatic version differs between processes: {va} vs {vb}")
+    return [va, vb]
+
+
+def nat_autoversion(params, model):
+    va, vb = _auto_version_in_fresh_interpreter(model["p1"]), _auto_version_in_fresh_interpreter(model["p2"] + 10)
+    return {"ok": va == vb, "label": "autoversion:automatic version differs between processes",
+            "detail": f"{va} vs {vb}"}
+
+
 def sym_twin():
     sym_history(["set_a", "make_t1"])
     prove(False, "twin:reachable")
@@ -632,11 +716,13 @@ OBLIGATIONS = [
        doc="after any history: keys and get_array values equal a brand-new context's; key(d) changes iff tracked "
            "option / version of d or an ancestor changed"),
     Ob("fuzzy", sym_fuzzy, lambda tier: [dict(kind="type"), dict(kind="option"), dict(kind="option", tuple_option=True),
-                                         dict(kind="type", tuple_option=True)], nat_fuzzy, setup=_setup, witnesses=1),
+                                         dict(kind="type", tuple_option=True), dict(kind="option", dict_option=True)], nat_fuzzy, setup=_setup, witnesses=1),
     Ob("order", sym_order, lambda tier: [dict()], None, setup=_setup, witnesses=0),
     Ob("hashfn", sym_hashfn, lambda tier: [dict(i=k) for k in range(len(_universe()))], nat_hashfn, witnesses=1,
        doc="real deterministic_hash on a typed universe of option values (ordered pairs, three wrappings): same key iff "
            "same value; stable on re-evaluation"),
+    Ob("autoversion", sym_autoversion, lambda tier: [dict()], nat_autoversion, witnesses=0,
+       doc="__version__ = None: the automatic version is identical in fresh interpreters"),
     Ob("hashseed", sym_hashseed, lambda tier: [dict()], nat_hashseed, witnesses=1,
        doc="keys computed in fresh interpreters under PYTHONHASHSEED 0..3 agree"),
     Ob("twin", sym_twin, lambda tier: [dict()], None, setup=_setup, expect_cex=True),
